@@ -502,9 +502,13 @@ def generate(model, outdir):
         fq = rust2fq.get(e["rust"], "")
         tu.append("  (%s, %s, %s)" % (cq(e["rust"]), cq(fq), cq(e["url"])))
     mt = ["  (%s, %s)" % (cq(".".join(e["mod"])), cq(e["file"][:-3] if e["file"].endswith(".rs") else e["file"])) for e in model["modtree"]]
+    # prost takes the FIRST declared variant of an enumeration as the field default (omitted on the wire, assumed when
+    # absent); protobuf's default is the value 0
+    en = ["  (%s, %d)" % (cq(fq), (vals[0][1] if vals and vals[0][1] >= 0 else 4294967295)) for fq, vals in sorted(model["enums"].items())]
     tables = hdr + "From Coq Require Import String List.\nImport ListNotations.\n" \
         + "Definition gen_type_urls : list (string * string * string) := [\n" + ";\n".join(tu) + "\n]%string.\n\n" \
-        + "Definition gen_modtree : list (string * string) := [\n" + ";\n".join(mt) + "\n]%string.\n"
+        + "Definition gen_modtree : list (string * string) := [\n" + ";\n".join(mt) + "\n]%string.\n\n" \
+        + "Definition gen_enum_first : list (string * N) := [\n" + ";\n".join(en) + "\n]%string.\n"
     changed |= write_if_changed(os.path.join(outdir, "ProtoTables.v"), tables)
     changed |= write_if_changed(os.path.join(VERIF, "harness", "src", "proto_registry.rs"), rust_registry(model))
     return {"changed": changed, "messages": len(gen), "reference": len(ref), "shared": len(set(gen) & set(ref)), "type_urls": len(tu), "modtree": len(mt)}
